@@ -4,7 +4,7 @@ target; (2) generated larger graphs into which a cycle is injected through a man
 the deps log (a recorded header becomes an output of a new statement) or a phony self-reference, inside or outside
 the requested closure, plus acyclic controls with validations pointing back at their requester.
 Oracle: reference cycle finder on the needed closure; the printed cycle must be a real cycle; nothing runs."""
-import copy, itertools, json, re
+import copy, itertools, json, os, re
 from hypothesis import given, settings, seed as hseed, HealthCheck, Phase, Verbosity, strategies as st
 from .. import common, graphs, models, simrun
 from ..models import key, all_outs, producer_map
@@ -448,6 +448,19 @@ def replay_case(case):
     return None
 
 
+def replay_regressions(ck):
+    """saved shrunk cases (regress/*_C17_*.json) are re-executed first; a failing one means a repaired defect came back"""
+    import glob
+    n = 0
+    for path in sorted(glob.glob(os.path.join(common.VERIF, 'regress', '*_C17_*.json'))):
+        case = json.load(open(path))['case']
+        n += 1
+        why = replay_case(case)
+        if why:
+            ck.violation(case, "regression file %s: %s" % (os.path.basename(path), why if isinstance(why, str) else 'violation'))
+    ck.extra_cov['regression_cases_replayed'] = n
+
+
 def run(tier):
     thorough = tier == "thorough"
     ck = common.Check(PROP, tier, "exploration",
@@ -463,6 +476,7 @@ def run(tier):
     nf = 4 if thorough else 3
     jobs = [(p, common.NCPU, 2, ['-', 'e', 'i', 'o', 'v'], nf) for p in range(common.NCPU)]
     jobs += [(p, common.NCPU, 3, ['-', 'e', 'o'], 3) for p in range(common.NCPU)]
+    replay_regressions(ck)
     res = common.run_workers(enum_worker, jobs)
     ck.merge(res)
     ck.extra_cov['exhaustive_small_graphs'] = not res.failures
